@@ -264,7 +264,10 @@ class Executor:
         self.const_cache = {}
         self._index_defs()
         self.solver = z3.Solver()
-        self.solver.set('timeout', self.cfg['solver_timeout_ms'])
+        # feasibility queries get a short cap (an undecided branch aborts that path: inconclusive, never a
+        # verdict); property queries go through solve() with the full cap
+        self.solver.set('timeout', min(self.cfg['solver_timeout_ms'], self.cfg.get('branch_timeout_ms', 15000)))
+        self.deadline = time.time() + self.cfg.get('time_budget_s', 1500)
         self.strict_unknown_calls = False
         self.consts_seen = {}
         self._divmod = {}
@@ -515,6 +518,8 @@ class Executor:
         """satisfiability of pc + extra; returns 'sat' | 'unsat' | 'unknown'.
         The path condition is satisfiable by construction (only feasible branches are followed), so only
         the conjuncts in the cone of influence of `extra` (sharing constants, transitively) are sent."""
+        if time.time() > self.deadline:
+            raise Inconclusive('time budget of this exploration (%d s) exhausted' % self.cfg.get('time_budget_s', 1500))
         conds = []
         for c in extra:
             if want_model is None:
